@@ -1195,8 +1195,18 @@ func (o *oracleCtx) c16() {
 
 // ---------------------------------------------------------------- C18
 func (o *oracleCtx) c18() {
+	o.c18Retention()
+	o.c18Size()
+}
+
+// c18Retention: retained segments, files in Directory and the URL table stay bounded. It reads only
+// snapshots and playlists, so it also applies to histories with injected storage faults.
+func (o *oracleCtx) c18Retention() {
 	h, r := o.h, o.r
 	vn := variantName(h.Variant)
+	if len(h.Faults) > 0 {
+		vn += ":storage-faults"
+	}
 	for _, rot := range r.rotations {
 		for si, pm := range rot.playlists {
 			if pm != nil && pm.err == "" && len(pm.segs) > effSegCount(h) {
@@ -1267,7 +1277,12 @@ func (o *oracleCtx) c18() {
 			}
 		}
 	}
-	// published payload per segment never exceeds SegmentMaxSize
+}
+
+// c18Size: published payload per segment never exceeds SegmentMaxSize
+func (o *oracleCtx) c18Size() {
+	h, r := o.h, o.r
+	vn := variantName(h.Variant)
 	max := effSegMax(h)
 	if h.Variant == 1 {
 		for _, rot := range r.rotations {
@@ -1306,6 +1321,10 @@ func runOracles(h *history, r *runResult) []failure {
 	if r.startErr {
 		// Start must reject exactly: no tracks, two videos, MPEG-TS restrictions, two default audios, too few segments
 		return nil
+	}
+	if len(h.Faults) > 0 {
+		o.c18Retention()
+		return o.fails
 	}
 	for _, p := range r.panics {
 		o.fail("C08", variantName(h.Variant)+":panic", "panic while driving the muxer: %s", p)
